@@ -7,7 +7,7 @@ from ..common import Snapshot, eqstar, plain
 from .c05 import env_of
 
 PLAN = {
-    "quick": {"shards": 8, "cases": 220, "min_nontrivial": 1000, "budget_s": 240},
+    "quick": {"shards": 8, "cases": 700, "min_nontrivial": 3000, "budget_s": 300},
     "thorough": {"shards": 16, "cases": 3500, "min_nontrivial": 25000, "budget_s": 1500},
 }
 RULE = ("schemas of depth <= 4 and width <= 6 with identifier keys whose option names are unique after the '.'/'_' -> '-' "
@@ -20,7 +20,7 @@ RULE = ("schemas of depth <= 4 and width <= 6 with identifier keys whose option 
         "and mutated states: the state afterwards must equal 'supplied and not ignored options set to their normal "
         "form and marked user-defined, every other value and flag untouched'; non-trivial = >= 4 paths and >= 1 "
         "command line applied; distinct = distinct (schema, state, command line)")
-REQUIRED = ("paths_checked", "dotted_assignments_checked", "parsers_compared", "overrides_compared", "argv:empty",
+REQUIRED = ("schema_grown_after_enumeration", "paths_checked", "dotted_assignments_checked", "parsers_compared", "overrides_compared", "argv:empty",
             "argv:bool-on", "argv:bool-off", "argv:value", "argv:repeated", "argv:invalid", "ignore:str", "ignore:list",
             "state:mutated", "depth>=3")
 ASSUMPTIONS = ["enumeration is judged on root schemas / configurations; membership is demanded of stored fields only",
@@ -137,40 +137,64 @@ def run(case, ctx, res):
     env = env_of(ctx)
     drv = history.Driver(ctx, res, case["schema"], env)
     root, schema, cfg = drv.root, drv.built.schema, drv.cfg
-    # ---- (1) naming
-    fields = cc.get_all_fields(schema)
-    listed = [p for p, _o, _f in fields]
-    want_paths = [p for p, nd in spec.walk(root) if "[]" not in p and not _inside_ctype(root, p)]
-    if sorted(listed) != sorted(want_paths) or listed != [p for p, _o, _f in cc.get_all_fields(cfg)]:
-        res.viol("M-names", "enumeration", "get_all_fields lists %r, the schema declares %r" % (listed, want_paths))
+    def check_names(stage):
+        fields = cc.get_all_fields(schema)
+        listed = [p for p, _o, _f in fields]
+        want_paths = [p for p, nd in spec.walk(root) if "[]" not in p and not _inside_ctype(root, p)]
+        if sorted(listed) != sorted(want_paths) or listed != [p for p, _o, _f in cc.get_all_fields(cfg)]:
+            res.viol("M-names", "enumeration" + stage, "get_all_fields lists %r, the schema declares %r" % (listed, want_paths))
+            return None
+        if max([p.count(".") for p in listed] or [0]) >= 2:
+            res.count("depth>=3")
+        for path, owner, field in fields:
+            res.count("paths_checked")
+            nd = spec.node_at(root, path)
+            if schema[path] is not field:
+                res.viol("M-names", "schema-lookup" + stage, "schema[%r] is not the field enumerated under that path" % path)
+                return None
+            if cc.item_ref_path(field) != path:
+                res.viol("M-names", "ref-path" + stage, "item_ref_path of the field at %r is %r" % (path, cc.item_ref_path(field)))
+                return None
+            fam = nd["family"] if nd["kind"] == "field" else nd["kind"]
+            if fam == "method":
+                continue
+            try:
+                via_item = cfg[path]
+                via_attr = spec.get_path(cfg, path)
+            except Exception as exc:
+                res.viol("M-names", "config-lookup:" + fam, "reading %r raised %r" % (path, exc))
+                return None
+            same = via_item is via_attr if isinstance(via_attr, cc.Config) else eqstar(plain(via_item), plain(via_attr))
+            if not same and fam != "virtual":
+                res.viol("M-names", "config-lookup:" + fam, "cfg[%r] is %r, attribute access gives %r" % (path, via_item, via_attr))
+                return None
+            if fam != "virtual" and path not in cfg:
+                res.viol("M-names", "membership", "%r is enumerated and readable but `in cfg` is False" % path)
+                return None
+        return fields
+
+    # ---- (1) naming: on the schema as built, and again after the schema has grown (fields added to nested schemas
+    # after the first enumeration must show up in the next one)
+    fields = check_names("")
+    if fields is None:
         return
-    if max([p.count(".") for p in listed] or [0]) >= 2:
-        res.count("depth>=3")
-    for path, owner, field in fields:
-        res.count("paths_checked")
-        nd = spec.node_at(root, path)
-        if schema[path] is not field:
-            res.viol("M-names", "schema-lookup", "schema[%r] is not the field enumerated under that path" % path)
-            return
-        if cc.item_ref_path(field) != path:
-            res.viol("M-names", "ref-path", "item_ref_path of the field at %r is %r" % (path, cc.item_ref_path(field)))
-            return
-        fam = nd["family"] if nd["kind"] == "field" else nd["kind"]
-        if fam == "method":
-            continue
-        try:
-            via_item = cfg[path]
-            via_attr = spec.get_path(cfg, path)
-        except Exception as exc:
-            res.viol("M-names", "config-lookup:" + fam, "reading %r raised %r" % (path, exc))
-            return
-        same = via_item is via_attr if isinstance(via_attr, cc.Config) else eqstar(plain(via_item), plain(via_attr))
-        if not same and fam != "virtual":
-            res.viol("M-names", "config-lookup:" + fam, "cfg[%r] is %r, attribute access gives %r" % (path, via_item, via_attr))
-            return
-        if fam != "virtual" and path not in cfg:
-            res.viol("M-names", "membership", "%r is enumerated and readable but `in cfg` is False" % path)
-            return
+    listed = [p for p, _o, _f in fields]
+    grow = [p for p, nd in spec.walk(root) if nd["kind"] == "schema" and "[]" not in p and not _inside_ctype(root, p)]
+    grow_rng = ctx.cache.setdefault("rng16g", __import__("random").Random(61))
+    targets = grow_rng.sample(grow, min(len(grow), 2)) + [""]
+    for n, gpath in enumerate(targets):
+        holder = schema[gpath] if gpath else schema
+        gnode = spec.node_at(root, gpath) if gpath else root
+        key = "grown%d" % n
+        fam = grow_rng.choice(["int", "bool", "str", "float"])
+        setattr(holder, key, {"int": cc.IntField, "bool": cc.BoolField, "str": cc.StringField, "float": cc.FloatField}[fam]())
+        gnode["fields"].append({"kind": "field", "key": key, "family": fam, "params": {}})
+        res.count("schema_grown_after_enumeration")
+    cfg = drv.cfg = cc.Config(schema, key_filename=drv.keyfile)
+    fields = check_names(":after-growth")
+    if fields is None:
+        return
+    listed = [p for p, _o, _f in fields]
     # dotted-path assignment is visible through attributes
     for path, owner, field in fields:
         nd = spec.node_at(root, path)
